@@ -1,11 +1,435 @@
-//! C04 (not built yet)
-use crate::report::{Disagreement, Run};
-use serde_json::Value;
+//! C04 A failed operation changes nothing (workbook, values, view, undo/redo history).
 
-pub fn run(run: &mut Run) {
-    run.machinery_errors.push("C04: check not built yet".into());
+use crate::hist;
+use crate::obs::{self, ObsOpts};
+use crate::ops::Op;
+use crate::props::c01::classes;
+use crate::report::{Disagreement, Run};
+use crate::seeds;
+use serde_json::{json, Value};
+
+fn s(x: &str) -> String {
+    x.to_string()
 }
 
-pub fn replay(_case: &Value) -> Vec<Disagreement> {
-    vec![]
+/// Calls with (probably) invalid arguments, one per invalid-argument class of every public operation.
+/// A call that happens to be accepted in some state is simply not judged there.
+pub fn invalid_catalogue() -> Vec<Op> {
+    use Op::*;
+    const LR: i32 = 1_048_576;
+    const LC: i32 = 16_384;
+    vec![
+        Input(9, 1, 1, s("x")),
+        Input(0, 0, 1, s("x")),
+        Input(0, 1, 0, s("x")),
+        Input(0, -1, 1, s("x")),
+        Input(0, LR + 1, 1, s("x")),
+        Input(0, 1, LC + 1, s("x")),
+        Input(0, 7, 6, s("x")), // inside the CSE array of the basic seed
+        ArrayFormula(9, 1, 1, 1, 1, s("=1")),
+        ArrayFormula(0, 0, 1, 1, 1, s("=1")),
+        ArrayFormula(0, 1, 1, 0, 1, s("=1")),
+        ArrayFormula(0, 1, 1, 1, -1, s("=1")),
+        ArrayFormula(0, LR, 1, 1, 2, s("=1")),
+        ArrayFormula(0, 1, LC, 2, 1, s("=1")),
+        ArrayFormula(0, 7, 6, 1, 2, s("=1")), // overlaps an existing array
+        ClearContents(9, 1, 1, 1, 1),
+        ClearContents(0, 0, 1, 1, 1),
+        ClearContents(0, 7, 6, 1, 1), // splits an array
+        ClearAll(9, 1, 1, 1, 1),
+        ClearAll(0, 1, 0, 1, 1),
+        ClearAll(0, 7, 6, 1, 1),
+        ClearFormatting(9, 1, 1, 1, 1),
+        ClearFormatting(0, 0, 0, 1, 1),
+        Style(9, 1, 1, 1, 1, s("font.b"), s("true")),
+        Style(0, 1, 1, 1, 1, s("font.b"), s("maybe")),
+        Style(0, 1, 1, 2, 2, s("font.nope"), s("true")),
+        Style(0, 1, 1, 2, 2, s("fill.color"), s("red")),
+        Style(0, 1, 1, 2, 2, s("font.color"), s("#12345")),
+        Style(0, 1, 1, 2, 2, s("alignment.horizontal"), s("diagonal")),
+        Style(0, 1, 1, 2, 2, s("num_fmt"), s("")),
+        Style(0, 0, 1, 1, 1, s("font.b"), s("true")),
+        Style(0, 1, 1, 2, 1, s("font.size_delta"), s("-11")), // valid for none / some of the cells only
+        Style(0, 1, 1, 2, 1, s("font.size_delta"), s("x")),
+        Style(0, 1, 1, 1, 2, s("font.size_delta"), s("-100")),
+        Border(9, 1, 1, 1, 1, s("All"), s("thin"), s("#000000")),
+        Border(0, 0, 1, 1, 1, s("All"), s("thin"), s("#000000")),
+        CreateNamedStyle(s(""), false),
+        CreateNamedStyle(s("normal"), false),
+        CreateNamedStyle(s("Normal"), true),
+        UpdateNamedStyle(s("nonexistent"), s("x"), false),
+        UpdateNamedStyle(s("normal"), s(""), false),
+        DeleteNamedStyle(s("nonexistent")),
+        DeleteNamedStyle(s("normal")),
+        ApplyNamedStyle(0, 1, 1, 2, 2, s("nonexistent")),
+        InsertRows(9, 1, 1),
+        InsertRows(0, 0, 1),
+        InsertRows(0, 1, 0),
+        InsertRows(0, 1, -1),
+        InsertRows(0, LR + 1, 1),
+        InsertRows(0, 1, LR),
+        InsertRows(0, 7, 1), // splits the arrays of the basic seed
+        InsertCols(9, 1, 1),
+        InsertCols(0, 0, 1),
+        InsertCols(0, 1, 0),
+        InsertCols(0, 1, -1),
+        InsertCols(0, LC + 1, 1),
+        InsertCols(0, 1, LC),
+        DeleteRows(9, 1, 1),
+        DeleteRows(0, 0, 1),
+        DeleteRows(0, 1, 0),
+        DeleteRows(0, 1, -1),
+        DeleteRows(0, LR, 2),
+        DeleteRows(0, 7, 1),
+        DeleteCols(9, 1, 1),
+        DeleteCols(0, 0, 1),
+        DeleteCols(0, 1, 0),
+        DeleteCols(0, 1, -1),
+        DeleteCols(0, LC, 2),
+        MoveRows(9, 1, 1, 1),
+        MoveRows(0, 0, 1, 1),
+        MoveRows(0, 1, 1, -1),
+        MoveRows(0, LR, 1, 1),
+        MoveRows(0, 6, 1, 3), // splits an array
+        MoveCols(9, 1, 1, 1),
+        MoveCols(0, 0, 1, 1),
+        MoveCols(0, 1, 1, -1),
+        MoveCols(0, LC, 1, 1),
+        RowsHeight(9, 1, 1, 30.0),
+        RowsHeight(0, 0, 1, 30.0),
+        RowsHeight(0, 1, 2, -1.0),
+        RowsHeight(0, LR - 1, LR + 1, 30.0), // runs off the grid after valid rows
+        ColsWidth(9, 1, 1, 30.0),
+        ColsWidth(0, 0, 1, 30.0),
+        ColsWidth(0, 1, 2, -1.0),
+        ColsWidth(0, LC - 1, LC + 1, 30.0),
+        RowsHidden(9, 1, 1, true),
+        RowsHidden(0, 0, 1, true),
+        RowsHidden(0, LR - 1, LR + 1, true),
+        ColsHidden(9, 1, 1, true),
+        ColsHidden(0, 0, 1, true),
+        ColsHidden(0, LC - 1, LC + 1, true),
+        DeleteSheet(9),
+        DuplicateSheet(9),
+        RenameSheet(9, s("x")),
+        RenameSheet(0, s("")),
+        RenameSheet(0, s("a/b")),
+        RenameSheet(0, s("a[b]")),
+        RenameSheet(0, s("Sheet2")),
+        RenameSheet(0, s("SHEET2")),
+        RenameSheet(0, s("0123456789012345678901234567890123")),
+        MoveSheet(9, 0),
+        MoveSheet(0, 9),
+        HideSheet(9),
+        UnhideSheet(9),
+        SheetColor(9, s("#FF0000")),
+        SheetColor(0, s("red")),
+        SheetColor(0, s("#GG0000")),
+        FrozenRows(9, 1),
+        FrozenRows(0, -1),
+        FrozenRows(0, LR + 1),
+        FrozenCols(9, 1),
+        FrozenCols(0, -1),
+        FrozenCols(0, LC + 1),
+        GridLines(9, true),
+        NewName(s("1abc"), None, s("Sheet1!$A$1")),
+        NewName(s("A1"), None, s("Sheet1!$A$1")),
+        NewName(s("a b"), None, s("Sheet1!$A$1")),
+        NewName(s("nm"), None, s("Sheet1!$A$2")),
+        NewName(s("NM"), None, s("Sheet1!$A$2")),
+        NewName(s("ok1"), Some(9), s("Sheet1!$A$1")),
+        NewName(s("ok2"), None, s("=+")),
+        NewName(s("TRUE"), None, s("Sheet1!$A$1")),
+        UpdateName(s("nonexistent"), None, s("y"), None, s("Sheet1!$A$1")),
+        UpdateName(s("nm"), None, s("1x"), None, s("Sheet1!$A$1")),
+        UpdateName(s("nm"), None, s("nm"), Some(9), s("Sheet1!$A$1")),
+        UpdateName(s("nm"), None, s("loc"), Some(1), s("Sheet1!$A$1")),
+        UpdateName(s("nm"), None, s("nm"), None, s("=+")),
+        DeleteName(s("nonexistent"), None),
+        DeleteName(s("nm"), Some(0)),
+        DeleteName(s("nm"), Some(9)),
+        SetLink(9, 1, 1, s("https://x"), None),
+        SetLink(0, 0, 1, s("https://x"), None),
+        SetLink(0, 1, 1, s(""), None),
+        SetLink(0, 7, 6, s("https://x"), Some(s("label"))),
+        SetInternalLink(0, 1, 1, s(""), None),
+        DeleteLink(9, 1, 1),
+        DeleteLink(0, 0, 1),
+        DeleteLink(0, 3, 3),
+        AddCf(9, s("A1:A2"), s("A1>1")),
+        AddCf(0, s(""), s("A1>1")),
+        AddCf(0, s("A0:B2"), s("A1>1")),
+        AddCf(0, s("nonsense"), s("A1>1")),
+        AddCf(0, s("A1:A2"), s("=+")),
+        UpdateCf(9, 0, s("A1:A2"), s("A1>1")),
+        UpdateCf(0, 7, s("A1:A2"), s("A1>1")),
+        UpdateCf(0, 0, s("nonsense"), s("A1>1")),
+        DeleteCf(9, 0),
+        DeleteCf(0, 7),
+        RaiseCf(0, 7),
+        LowerCf(0, 7),
+        RaiseCf(9, 0),
+        Paste(0, 1, 1, 2, 1, 0, LR, 1, false), // target runs off the grid
+        Paste(0, 1, 1, 1, 2, 0, 1, LC, true),
+        Paste(0, 1, 1, 2, 2, 0, 6, 6, false), // onto an array
+        Paste(0, 1, 1, 2, 2, 0, 7, 5, true),
+        PasteCsv(9, 1, 1, s("1")),
+        PasteCsv(0, 0, 1, s("1")),
+        PasteCsv(0, LR, 1, s("1\n2")),
+        PasteCsv(0, 7, 6, s("1")),
+        AutoFillRows(9, 1, 1, 1, 1, 3),
+        AutoFillRows(0, 1, 1, 1, 1, 0),
+        AutoFillRows(0, 1, 1, 1, 1, LR + 1),
+        AutoFillRows(0, 1, 6, 1, 1, 7),
+        AutoFillCols(9, 1, 1, 1, 1, 3),
+        AutoFillCols(0, 1, 1, 1, 1, 0),
+        AutoFillCols(0, 1, 1, 1, 1, LC + 1),
+        SetLocale(s("xx")),
+        SetLocale(s("")),
+        SetTimezone(s("Mars/Olympus")),
+        SetTimezone(s("")),
+        SetLanguage(s("xx")),
+        SelSheet(9),
+        SelCell(0, 1),
+        SelCell(1, LC + 1),
+        SelRange(1, 1, 0, 1),
+        SelRange(3, 3, 2, 2),
+        AreaSelecting(0, 1),
+        ExpandRange(s("Nonsense")),
+    ]
+}
+
+pub struct Out {
+    pub ds: Vec<Disagreement>,
+    pub judged: u64,
+    pub accepted: u64,
+    pub steps: u64,
+    pub digests: Vec<u128>,
+}
+
+/// history = ops then `undos` undo steps; then the call under test.
+pub fn judge_call(seed: &'static str, ops: &[Op], undos: usize, call: &Op) -> Option<(Vec<Disagreement>, bool, u64, u128)> {
+    let o = ObsOpts { view: true, ..Default::default() };
+    let case = json!({"seed": seed, "ops": ops, "undos": undos, "call": call});
+    let build = || -> Option<ironcalc_base::UserModel<'static>> {
+        let (mut um, fail) = hist::replay(seed, ops);
+        if fail.is_some() {
+            return None;
+        }
+        for _ in 0..undos {
+            if um.undo().is_err() {
+                return None;
+            }
+        }
+        Some(um)
+    };
+    let mut a = build()?;
+    if undos > a.verif_history_depths().1 {
+        return None; // fewer entries than undos asked for: same state as a smaller `undos`
+    }
+    let before = obs::observe(&a, &o);
+    let d_before = a.verif_history_depths();
+    let q_before = a.verif_send_queue_len();
+    let mut ds = vec![];
+    let mut steps = 1u64;
+    let r = crate::env::guarded(|| call.apply(&mut a));
+    let e = match r {
+        Err(p) => {
+            ds.push(Disagreement {
+                sig: format!("panic call={} at={}", call.kind(), p.split(" @ ").last().unwrap_or("")),
+                case,
+                detail: format!("{:?} panicked: {}", call, p),
+            });
+            return Some((ds, true, steps, 0));
+        }
+        Ok(Ok(())) => return Some((ds, false, steps, 0)),
+        Ok(Err(e)) => e,
+    };
+    let mut after = obs::observe(&a, &o);
+    let mut before = before;
+    // composite harness operations select a range/sheet through the public selection calls BEFORE the call
+    // under test; that prelude succeeded and legitimately moved the view, so the view is not compared for them
+    if matches!(call, Op::ApplyNamedStyle(..) | Op::PasteStyles(..) | Op::Paste(..) | Op::PasteCsv(..)) {
+        let is_view = |k: &String| k.ends_with(".view") || k.starts_with("wb.view");
+        before.retain(|k, _| !is_view(k));
+        after.retain(|k, _| !is_view(k));
+    }
+    let d_after = a.verif_history_depths();
+    let digest = obs::digest(&before) ^ crate::env::digest(&format!("{:?}", call));
+    if after != before {
+        let df = obs::diff(&before, &after);
+        ds.push(Disagreement {
+            sig: format!("failed-call-changed-state call={} fields={}", call.kind(), classes(&df)),
+            case: case.clone(),
+            detail: format!("{:?} returned Err({}) but changed the workbook/view:\n{}", call, e, obs::diff_text(&df, 8)),
+        });
+        return Some((ds, true, steps, digest));
+    }
+    if d_after != d_before {
+        ds.push(Disagreement {
+            sig: format!("failed-call-changed-history call={}", call.kind()),
+            case: case.clone(),
+            detail: format!(
+                "{:?} returned Err({}) but the (undo, redo) depths went from {:?} to {:?}",
+                call, e, d_before, d_after
+            ),
+        });
+        return Some((ds, true, steps, digest));
+    }
+    if a.verif_send_queue_len() != q_before {
+        ds.push(Disagreement {
+            sig: format!("failed-call-queued-diffs call={}", call.kind()),
+            case: case.clone(),
+            detail: format!("{:?} returned Err({}) but queued diffs for replicas", call, e),
+        });
+        return Some((ds, true, steps, digest));
+    }
+    // lock-step walk: undo to the bottom, redo to the top, against a twin that never saw the failed call
+    let mut b = build()?;
+    let no_view = ObsOpts::default();
+    for phase in 0..2 {
+        loop {
+            let can = if phase == 0 { b.can_undo() } else { b.can_redo() };
+            let can_a = if phase == 0 { a.can_undo() } else { a.can_redo() };
+            if can != can_a {
+                ds.push(Disagreement {
+                    sig: format!("failed-call-changed-history call={}", call.kind()),
+                    case: case.clone(),
+                    detail: format!("after the failed {:?} can_{} differs from the twin", call, if phase == 0 { "undo" } else { "redo" }),
+                });
+                return Some((ds, true, steps, digest));
+            }
+            if !can {
+                break;
+            }
+            let ra = crate::env::guarded(|| if phase == 0 { a.undo() } else { a.redo() });
+            let rb = crate::env::guarded(|| if phase == 0 { b.undo() } else { b.redo() });
+            steps += 2;
+            let ok_a = matches!(ra, Ok(Ok(())));
+            let ok_b = matches!(rb, Ok(Ok(())));
+            if ok_a != ok_b {
+                ds.push(Disagreement {
+                    sig: format!("failed-call-changed-undo-behaviour call={}", call.kind()),
+                    case: case.clone(),
+                    detail: format!("after the failed {:?}, {} returns {:?} but {:?} on the twin", call, if phase == 0 { "undo" } else { "redo" }, ra, rb),
+                });
+                return Some((ds, true, steps, digest));
+            }
+            if !ok_b {
+                break;
+            }
+            let oa = obs::observe(&a, &no_view);
+            let ob = obs::observe(&b, &no_view);
+            if oa != ob {
+                let df = obs::diff(&ob, &oa);
+                ds.push(Disagreement {
+                    sig: format!("failed-call-changed-undo-behaviour call={} fields={}", call.kind(), classes(&df)),
+                    case: case.clone(),
+                    detail: format!(
+                        "after the failed {:?}, walking the history ({}) gives a different workbook than on the twin:\n{}",
+                        call,
+                        if phase == 0 { "undo" } else { "redo" },
+                        obs::diff_text(&df, 6)
+                    ),
+                });
+                return Some((ds, true, steps, digest));
+            }
+        }
+    }
+    Some((ds, true, steps, digest))
+}
+
+pub fn run(run: &mut Run) {
+    let thorough = run.tier.thorough();
+    let core = seeds::alphabet_core();
+    let mut calls = invalid_catalogue();
+    let n_invalid = calls.len();
+    calls.extend(seeds::alphabet_full()); // valid operations that fail in some states are judged too
+    // states: (seed, ops, undos)
+    let mut states: Vec<(&'static str, Vec<Op>, usize)> = vec![];
+    for seed in seeds::SEEDS {
+        states.push((seed, vec![], 0));
+        let alpha: Vec<Op> = if thorough { seeds::alphabet_full() } else { core.iter().step_by(2).cloned().collect() };
+        for op in &alpha {
+            states.push((seed, vec![op.clone()], 0));
+            states.push((seed, vec![op.clone()], 1));
+        }
+    }
+    if thorough {
+        for a in &core {
+            for b in &core {
+                for u in 0..=2 {
+                    states.push(("basic", vec![a.clone(), b.clone()], u));
+                }
+            }
+        }
+    } else {
+        for a in core.iter().step_by(6) {
+            for b in core.iter().step_by(5) {
+                for u in [0usize, 1] {
+                    states.push(("basic", vec![a.clone(), b.clone()], u));
+                }
+            }
+        }
+    }
+    let n_states = states.len();
+    let res = crate::env::par_units(n_states, |u| {
+        let (seed, ops, undos) = &states[u];
+        let mut out = Out { ds: vec![], judged: 0, accepted: 0, steps: 0, digests: vec![] };
+        // skip states whose history fails
+        let (_, fail) = hist::replay(seed, ops);
+        if fail.is_some() {
+            return out;
+        }
+        for call in &calls {
+            if let Some((ds, judged, steps, dg)) = judge_call(seed, ops, *undos, call) {
+                if judged {
+                    out.judged += 1;
+                    out.digests.push(dg);
+                } else {
+                    out.accepted += 1;
+                }
+                out.steps += steps + ops.len() as u64 + *undos as u64;
+                out.ds.extend(ds);
+            }
+        }
+        out
+    });
+    let mut outcomes = std::collections::HashSet::new();
+    let mut accepted = 0u64;
+    for r in res {
+        match r {
+            Ok(o) => {
+                run.evaluations += o.judged + o.accepted;
+                run.nontrivial += o.judged;
+                run.traces += o.judged;
+                run.transitions += o.steps;
+                run.states += 1;
+                accepted += o.accepted;
+                for d in o.digests {
+                    outcomes.insert(d);
+                }
+                run.add_all(o.ds);
+            }
+            Err(e) => run.machinery_errors.push(e),
+        }
+    }
+    run.distinct_outcomes = outcomes.len() as u64;
+    run.bound = json!({"start_states": n_states, "invalid_call_catalogue": n_invalid, "calls_per_state": calls.len(),
+        "calls_accepted_not_judged": accepted, "hash_seed": crate::env::hash_seed()});
+    run.rule = "every start state (seed workbook · history of length <=1 or 2 · k undos, so that redo lists are non-empty) × every call of the invalid-argument catalogue and of the normal alphabet; a call is judged iff it returns Err (or panics): full observation incl. view, undo/redo depths and outgoing queue must be unchanged, then the model and a twin that never saw the call are undone to the bottom and redone to the top in lock-step with equal observations. non-trivial = judged (failing) calls, distinct by (state, call)".into();
+    run.sample(json!({"seed":"basic","ops":[],"undos":0,"call":calls[0]}));
+    run.sample(json!({"seed":"basic","ops":[core[0]],"undos":1,"call":calls[n_invalid - 10]}));
+    run.sample(json!({"seed":"empty","ops":[core[22]],"undos":0,"call":calls[60]}));
+    run.assume("invalid-argument classes are those of the catalogue (listed in the harness); other invalid arguments are not covered");
+}
+
+pub fn replay(case: &Value) -> Vec<Disagreement> {
+    let seed = hist::seed_name(case["seed"].as_str().unwrap_or("empty"));
+    let ops: Vec<Op> = serde_json::from_value(case["ops"].clone()).unwrap_or_default();
+    let undos = case["undos"].as_u64().unwrap_or(0) as usize;
+    match serde_json::from_value::<Op>(case["call"].clone()) {
+        Ok(call) => judge_call(seed, &ops, undos, &call).map(|x| x.0).unwrap_or_default(),
+        Err(_) => vec![],
+    }
 }
